@@ -2553,4 +2553,84 @@ theorem normF_idem (ok : IdemTablesOK) (fuel : Nat) (k : String) (j j₁ : Json)
     (h : normF fuel (.kind k) j = .ok j₁) (hc : Clean j₁) : normF fuel (.kind k) j₁ = .ok j₁ :=
   (normF_good ok fuel).idem _ _ _ h hc
 
+
+/-! ### an executable test for `Clean` (run by the driver on the implementation's outputs) -/
+
+def nameOKB (k : String) : Bool :=
+  keywordList.all (fun n => foldName k != foldName n || k == n) && (!isExtKey k || hasXPrefix k)
+
+def refTextOKB (k : String) (v : Json) : Bool :=
+  if k == "$ref" || k == "$schema" then
+    match v with
+    | .str t => (match urlString t with
+      | .ok t' => t' == t
+      | _ => false)
+    | _ => true
+  else true
+
+def notNull : Json → Bool
+  | .null => false
+  | _ => true
+
+mutual
+  def cleanB : Json → Bool
+    | .num n => decide (n.natAbs ≤ floatExact)
+    | .arr xs => cleanLB xs
+    | .obj ms => cleanMB ms
+    | _ => true
+  def cleanLB : List Json → Bool
+    | [] => true
+    | x :: xs => cleanB x && cleanLB xs
+  def cleanMB : List (String × Json) → Bool
+    | [] => true
+    | (k, v) :: rest => nameOKB k && notNull v && refTextOKB k v && cleanB v && cleanMB rest
+end
+
+theorem nameOKB_sound {k : String} (h : nameOKB k = true) : NameOK k := by
+  simp only [nameOKB, Bool.and_eq_true, List.all_eq_true, Bool.or_eq_true, bne_iff_ne, ne_eq, beq_iff_eq,
+    Bool.not_eq_true'] at h
+  refine ⟨?_, ?_⟩
+  · intro n hn hf
+    rcases h.1 n hn with h1 | h1
+    · exact absurd hf h1
+    · exact h1
+  · intro hx
+    rcases h.2 with h1 | h1
+    · rw [hx] at h1; simp at h1
+    · exact h1
+
+theorem refTextOKB_sound {k : String} {v : Json} (h : refTextOKB k v = true) : RefTextOK k v := by
+  intro hk t hv
+  subst hv
+  have hk' : (k == "$ref" || k == "$schema") = true := by
+    rcases hk with rfl | rfl <;> simp
+  simp only [refTextOKB, hk', if_true] at h
+  split at h
+  · rename_i t' heq; simp only [beq_iff_eq] at h; rw [heq, h]
+  · simp at h
+
+theorem notNull_sound {v : Json} (h : notNull v = true) : v ≠ .null := by
+  intro hv; subst hv; simp [notNull] at h
+
+mutual
+  theorem cleanB_sound : ∀ (j : Json), cleanB j = true → Clean j
+    | .num n, h => by simpa [cleanB, Clean] using h
+    | .arr xs, h => by simp only [Clean]; exact cleanLB_sound xs (by simpa [cleanB] using h)
+    | .obj ms, h => by simp only [Clean]; exact cleanMB_sound ms (by simpa [cleanB] using h)
+    | .null, _ => by simp [Clean]
+    | .bool _, _ => by simp [Clean]
+    | .str _, _ => by simp [Clean]
+  theorem cleanLB_sound : ∀ (xs : List Json), cleanLB xs = true → CleanL xs
+    | [], _ => by simp [CleanL]
+    | x :: xs, h => by
+        simp only [cleanLB, Bool.and_eq_true] at h
+        exact ⟨cleanB_sound x h.1, cleanLB_sound xs h.2⟩
+  theorem cleanMB_sound : ∀ (ms : List (String × Json)), cleanMB ms = true → CleanM ms
+    | [], _ => by simp [CleanM]
+    | (k, v) :: rest, h => by
+        simp only [cleanMB, Bool.and_eq_true] at h
+        obtain ⟨⟨⟨⟨h1, h2⟩, h3⟩, h4⟩, h5⟩ := h
+        exact ⟨nameOKB_sound h1, notNull_sound h2, refTextOKB_sound h3, cleanB_sound v h4, cleanMB_sound rest h5⟩
+end
+
 end SpecModel.Codec
